@@ -71,6 +71,7 @@ var _ = Service("svc", func() {
 			Attribute("session", String)
 			Attribute("csrf", String)
 			Attribute("user", String)
+			Attribute("visits", Int)
 			Required("session", "user")
 		})
 		HTTP(func() {
@@ -78,6 +79,7 @@ var _ = Service("svc", func() {
 			Response(StatusOK, func() {
 				Cookie("session:SID")
 				Cookie("csrf:XSRF-TOKEN")
+				Cookie("visits:n")
 			})
 		})
 	})
